@@ -97,6 +97,24 @@ def config_dict(settings):
   return cfg
 
 
+def config_text(settings):
+  """The configuration as TEXT (what --config takes, what a --config_file holds).  A setting of type "notjson" is written as
+  its text stands in the catalogue - a string with a raw control character: the result is not JSON."""
+  cfg = {}
+  raw = {}
+  for n, s in enumerate(settings):
+    if s["v"]["t"] == "notjson":
+      mark = "@@RAW%d@@" % n
+      raw[json.dumps(mark)] = s["json"]
+      cfg.setdefault(s["m"], {})[s["k"]] = mark
+    else:
+      cfg.setdefault(s["m"], {})[s["k"]] = json.loads(s["json"])
+  text = json.dumps(cfg)
+  for mark, rawtext in raw.items():
+    text = text.replace(mark, rawtext)
+  return text
+
+
 # lexical classes of string values (Cli!Accept only looks at membership)
 _NAMED_COLORS = {"transparent", "black", "silver", "gray", "white", "maroon", "red", "purple", "fuchsia", "magenta", "green", "lime",
                  "olive", "yellow", "navy", "blue", "teal", "aqua", "cyan"}
@@ -134,6 +152,8 @@ RELEVANT_SYN = {("general", "document_lang"): "langtag", ("imsc_writer", "fps"):
 
 def setting_syn(s):
   want = RELEVANT_SYN.get((s["m"], s["k"]))
+  if s["v"]["t"] == "notjson":
+    return []
   return [c for c in syn_classes(json.loads(s["json"])) if c == want]
 
 
@@ -155,12 +175,12 @@ def argv_for(job, inpath, outpath, configs, cfgdir):
   for f in job["filters"]:
     argv += ["--filter", f]
   if job["inline"]:
-    argv += ["--config", json.dumps(config_dict(configs[job["inline"]]))]
+    argv += ["--config", config_text(configs[job["inline"]])]
   if job["cfgfile"]:
     path = os.path.join(cfgdir, "cfg_%d.json" % job["cfgfile"])
     if not os.path.exists(path):
       with open(path, "w", encoding="utf-8") as fh:
-        json.dump(config_dict(configs[job["cfgfile"]]), fh)
+        fh.write(config_text(configs[job["cfgfile"]]))
     argv += ["--config_file", path]
   return argv
 
